@@ -49,6 +49,7 @@ VALUES = {
     "basic-key": [("Abc", "'abc'"), ("a-b.c", "'a-b.c'"), ("1a", None), ("", None)],
     "string-list": [("a b", "['a', 'b']"), ("", "[]"), ("x", "['x']")],
     "inet-address": [("Host:80", "('host', 80)"), ("8080", "('', 8080)"), ("host:x", None)],
+    "locale": [("C", "'C'"), ("no_SUCH.locale", None)],
 }
 
 
@@ -115,6 +116,8 @@ def convert(dt, text):
         return repr(text.lower()) if _basic_key.match(text) else None
     if dt == "string-list":
         return repr(text.split())
+    if dt == "locale":
+        return repr(text) if text in ("C", "POSIX") else None      # environment: the C locale exists, invented names do not
     if dt == "inet-address":
         if ":" in text:
             host, p = text.rsplit(":", 1)
